@@ -278,8 +278,11 @@ def run_body(frame, body, benv, accs, poison: Dict[str, Rat], stored_names=(), p
         if e.kind in ("append", "extend") and e.target in per:
             per[e.target].append((e.guard, e.args[0], e.kind == "extend"))
         elif e.kind == "store" and e.target in pre and e.target in per and len(e.args) == 2 and pos is not None \
-                and isinstance(e.args[0], Rat) and e.args[0].equals(pos):
-            per[e.target].append((e.guard, e.args[1], False))        # A[position] = value: the value of slot `position`
+                and isinstance(e.args[0], Rat) and e.args[0].sub(pos).is_const() is not None and Fraction(e.args[0].sub(pos).is_const()).denominator == 1:
+            # A[position + c] = value: the value of slot `position + c` (the offset is checked against the range below)
+            per[e.target].append((e.guard, e.args[1], False))
+            offsets = frame.ev.__dict__.setdefault("_prealloc_offsets", {}) if hasattr(frame.ev, "__dict__") else {}
+            offsets[(frame.fi.qualname, e.target)] = Rat.const(e.args[0].sub(pos).is_const())
         elif e.kind in ("call", "return"):
             continue
         elif e.kind == "aug" and e.target in stored_names:
@@ -499,7 +502,9 @@ def _summarise(frame, target, iter_node, body, env, guard: G, node) -> bool:
         # nothing but accumulators / recurrences / temporaries may use the poison
         for a in pre:
             # every slot is written exactly once: one unconditional store per position 0 .. N-1
-            if not (len(per[a]) == 1 and per[a][0][0].kind == "true" and lo.is_zero() and step.is_const() == 1 and hi.equals(ev.prealloc[(frame.fi.qualname, a)])):
+            off_ = getattr(ev, "_prealloc_offsets", {}).get((frame.fi.qualname, a), Rat.const(0))
+            if not (len(per[a]) == 1 and per[a][0][0].kind == "true" and lo.add(off_).is_zero() and step.is_const() == 1
+                    and hi.add(off_).equals(ev.prealloc[(frame.fi.qualname, a)])):
                 raise NoSummary(f"{a}: the preallocated array is not filled once at every position")
         for a in accs:
             if per[a]:
@@ -524,7 +529,7 @@ def _summarise(frame, target, iter_node, body, env, guard: G, node) -> bool:
         if a in pre:
             if guard.kind != "true" or not items:
                 raise NoSummary(f"{a}: conditional fill of a preallocated array")
-            env[a] = Vec(flatten(items), "list")
+            env[a] = Vec(flatten(items), "list", arr=True)
             ev.prealloc.pop((frame.fi.qualname, a), None)
         elif isinstance(cur, Vec):
             env[a] = Vec(flatten(list(cur.items) + items), "list")
